@@ -286,6 +286,8 @@ fn alternates(skel: &str, p: &str) -> Vec<V> {
   }
   if p.ends_with("/position") {
     out.extend([r("0"), s("odd"), s("-2n+3")]);
+    // extreme coefficients that still fit an i32: the index test must not overflow on them
+    out.extend([s("-n-2147483647"), s("2n-2147483647"), s("n-2147483646"), s("-2147483647n+2147483647")]);
   }
   if p.ends_with("/joinBy") {
     out.push(s("\n"));
